@@ -1,3 +1,393 @@
-pub fn run(_cli: common::Cli) -> ! {
-    common::machinery("not built yet")
+//! C10: issued cookies are verifiable, complete, and accepted on the next transfer.
+//!
+//! Two-connection histories: authenticate and get transferred, then reconnect presenting what
+//! the first connection stored.
+use crate::sim::*;
+use crate::util::*;
+use common::refs::codec::Pkt;
+use common::{Cli, Report, Violation, par_for};
+use serde::{Deserialize, Serialize};
+use serde_json::{Value, json};
+use std::collections::HashSet;
+use std::net::SocketAddr;
+use std::sync::Mutex;
+use std::sync::atomic::{AtomicU64, Ordering};
+
+#[derive(Clone, Debug, Serialize, Deserialize, PartialEq)]
+pub struct Spec {
+    ident: String,   // ascii | unicode | nil-uuid | long-name
+    props: usize,    // 0 | 1 | 2
+    target: String,  // empty | t | long | unicode
+    addr: String,    // v4 | v6 | v4-mapped
+    secret: String,  // none | empty | 1 | 64 | 65 | 200
+    session: bool,   // a prior session cookie is presented
+    host: String,    // empty | name | port0
+    second: String,  // same | other-port | other-ip | login-intent | after-expiry
+}
+
+fn ident(s: &Spec) -> (String, u128) {
+    match s.ident.as_str() {
+        "unicode" => ("Zoë_ß😀".into(), 0x1111_2222_3333_4444_8555_6666_7777_8888),
+        "nil-uuid" => ("Nil".into(), 0),
+        "long-name" => ("N".repeat(100), u128::MAX),
+        _ => ("Vouched_Name".into(), 0x0123_4567_89ab_4cde_8f01_2345_6789_abcd),
+    }
+}
+fn props(n: usize) -> Vec<Prop> {
+    let all = vec![
+        Prop { name: "textures".into(), value: "dGV4dHVyZXM=".into(), signature: Some("c2ln".into()) },
+        Prop { name: "cape".into(), value: "Y2FwZQ==".into(), signature: Some("c2lnMg==".into()) },
+    ];
+    match n {
+        0 => vec![],
+        1 => vec![Prop { name: "textures".into(), value: "dQ==".into(), signature: None }],
+        _ => all,
+    }
+}
+fn target_id(s: &Spec) -> String {
+    match s.target.as_str() {
+        "empty" => "".into(),
+        "long" => "T".repeat(200),
+        "unicode" => "zürich-😀-1".into(),
+        _ => "t".into(),
+    }
+}
+fn addr(s: &Spec) -> SocketAddr {
+    match s.addr.as_str() {
+        "v6" => "[2001:db8::77]:40123".parse().unwrap(),
+        "v4-mapped" => "[::ffff:198.51.100.7]:40123".parse().unwrap(),
+        _ => "198.51.100.7:40123".parse().unwrap(),
+    }
+}
+fn secret(s: &Spec) -> Option<Vec<u8>> {
+    match s.secret.as_str() {
+        "none" => None,
+        "empty" => Some(vec![]),
+        n => Some((0..n.parse::<usize>().unwrap()).map(|i| (i * 11 + 1) as u8).collect()),
+    }
+}
+fn host(s: &Spec) -> (String, u16) {
+    match s.host.as_str() {
+        "empty" => ("".into(), 25565),
+        "port0" => ("mc.example".into(), 0),
+        _ => ("play.mc.example".into(), 65535),
+    }
+}
+
+const SESSION_JSON: &[u8] = br#"{"id":"116934ee-8b5a-49d4-8b54-af0b4d6dbe5f","server_address":"old.example","server_port":1234}"#;
+
+fn first_case(s: &Spec) -> Case {
+    let (name, uuid) = ident(s);
+    let (h, p) = host(s);
+    let mut case = Case::default();
+    case.cfg.auth_secret = secret(s);
+    case.cfg.client_addr = addr(s);
+    case.script = Login { host: h, port: p, session: s.session.then(|| SESSION_JSON.to_vec()), ..Default::default() }.steps();
+    case.adapters.auth = AuthPlan::Profile { name, uuid, props: props(s.props) };
+    case.adapters.disc = DiscPlan::Targets(vec![TargetSpec::new("decoy", "10.0.0.9:1"), TargetSpec::new(&target_id(s), "10.1.2.3:25565")]);
+    case.adapters.strat = StratPlan::Pick(1);
+    case.horizon_ms = 60_000;
+    case
+}
+
+fn second_case(s: &Spec, stored_auth: Option<Vec<u8>>, stored_session: Option<Vec<u8>>) -> Case {
+    let (h, p) = host(s);
+    let mut case = first_case(s);
+    let mut a = addr(s);
+    match s.second.as_str() {
+        "other-port" => a.set_port(50_001),
+        "other-ip" => a = if a.is_ipv4() { "198.51.100.8:40123".parse().unwrap() } else { "[2001:db8::78]:40123".parse().unwrap() },
+        _ => {}
+    }
+    case.cfg.client_addr = a;
+    if s.second == "after-expiry" {
+        case.cfg.expiry = 0;
+    }
+    let intent = if s.second == "login-intent" { 2 } else { 3 };
+    let asked = intent == 3 && secret(s).is_some();
+    // the verdict of the second connection's own authentication differs from the first one's
+    case.adapters.auth = AuthPlan::Profile { name: "Second_Verdict".into(), uuid: 0x2222_0000_0000_4000_8000_0000_0000_2222, props: vec![] };
+    case.script = Login { intent, host: h, port: p, session: stored_session, auth_cookie: asked.then_some(stored_auth), name: "Claim2".into(), uuid: 0x3333_0000_0000_4000_8000_0000_0000_3333, ..Default::default() }.steps();
+    case
+}
+
+fn store_cookies(obs: &Obs) -> (Vec<Vec<u8>>, Vec<Vec<u8>>, Vec<String>) {
+    let mut auth = vec![];
+    let mut sess = vec![];
+    let mut other = vec![];
+    for (_, p) in &obs.packets {
+        if let Pkt::StoreCookie { key, payload } = p {
+            match key.as_str() {
+                "passage:authentication" => auth.push(payload.clone()),
+                "passage:session" => sess.push(payload.clone()),
+                k => other.push(k.to_string()),
+            }
+        }
+    }
+    (auth, sess, other)
+}
+
+/// checks an issued authentication cookie
+fn check_auth_cookie(bad: &mut dyn FnMut(&str, String), payload: &[u8], sec: &[u8], client: SocketAddr, name: &str, uuid: u128, props: &[Prop], target: &str, bracket: (u64, u64)) {
+    let (ok, body) = open_cookie(payload, sec);
+    if !ok {
+        bad("auth-cookie-tag", format!("the first 32 bytes are not HMAC-SHA256(secret, rest); payload {} bytes", payload.len()));
+    }
+    let Some(b) = body else {
+        bad("auth-cookie-body-not-json", format!("{}", String::from_utf8_lossy(&payload[32.min(payload.len())..])));
+        return;
+    };
+    let got_addr: Option<SocketAddr> = b["client_addr"].as_str().and_then(|a| a.parse().ok());
+    if got_addr != Some(client) {
+        let fam = if client.is_ipv4() { "ipv4" } else if client.ip().to_string().contains("ffff") { "ipv4-mapped" } else { "ipv6" };
+        bad(&format!("auth-cookie-client-address:{fam}"), format!("cookie records {:?}, the client address is {client}", b["client_addr"]));
+    }
+    if b["user_name"].as_str() != Some(name) || b["user_id"].as_str().and_then(parse_uuid_text) != Some(uuid) {
+        bad("auth-cookie-identity", format!("cookie records ({}, {}), the authenticated identity is ({name}, {})", b["user_name"], b["user_id"], uuid_text(uuid)));
+    }
+    if b["profile_properties"] != props_json(props) {
+        bad("auth-cookie-properties", format!("cookie records {}, the authenticated profile has {}", b["profile_properties"], props_json(props)));
+    }
+    if b["target"].as_str() != Some(target) {
+        bad("auth-cookie-target", format!("cookie records target {}, the chosen target is {target:?}", b["target"]));
+    }
+    match b["timestamp"].as_u64() {
+        Some(t) if t >= bracket.0 && t <= bracket.1 => {}
+        other => bad("auth-cookie-timestamp", format!("timestamp {other:?} outside the run's wall-clock bracket {bracket:?}")),
+    }
+}
+
+fn judge(s: &Spec, c1: &Case, o1: &Obs, o2: &Obs, o1b: &Obs, bracket: (u64, u64), bracket2: (u64, u64)) -> Vec<(String, String)> {
+    let mut v = vec![];
+    let mut bad = |k: &str, t: String| v.push((k.to_string(), t));
+    for o in [o1, o2] {
+        if let RunResult::Panic(p) = &o.result {
+            bad("panic", p.clone());
+            return v;
+        }
+        if o.garbled.is_some() || o.has("Unknown") || o.partial_tail > 0 {
+            bad("undecodable-clientbound", format!("{:?} {:?}", o.garbled, o.kinds()));
+            return v;
+        }
+    }
+    let (name, uuid) = ident(s);
+    let sec = secret(s);
+    let (h, p) = host(s);
+    // ---------------- first connection
+    if !matches!(o1.packets.last(), Some((_, Pkt::Transfer { .. }))) || o1.result != RunResult::Ok {
+        bad("first-connection-not-transferred", format!("{:?} {:?}", o1.kinds(), o1.result));
+        return v;
+    }
+    let (auth1, sess1, other1) = store_cookies(o1);
+    if !other1.is_empty() {
+        bad("unknown-cookie-stored", format!("{other1:?}"));
+    }
+    match &sec {
+        Some(sec) => {
+            if auth1.len() != 1 {
+                bad("auth-cookie-not-issued", format!("{} authentication cookies stored after a fresh authentication with a secret configured; packets {:?}", auth1.len(), o1.kinds()));
+            } else {
+                check_auth_cookie(&mut bad, &auth1[0], sec, c1.cfg.client_addr, &name, uuid, &props(s.props), &target_id(s), bracket);
+            }
+        }
+        None => {
+            if !auth1.is_empty() {
+                bad("auth-cookie-issued-without-secret", format!("{} authentication cookies stored although no secret is configured", auth1.len()));
+            }
+        }
+    }
+    // session cookie exactly when none was presented
+    if s.session && !sess1.is_empty() {
+        bad("session-cookie-overwritten", "a session cookie was stored although the client presented one".into());
+    }
+    if !s.session {
+        if sess1.len() != 1 {
+            bad("session-cookie-not-issued", format!("{} session cookies stored; packets {:?}", sess1.len(), o1.kinds()));
+        } else {
+            let b: Value = serde_json::from_slice(&sess1[0]).unwrap_or(Value::Null);
+            if b["server_address"].as_str() != Some(h.as_str()) || b["server_port"].as_u64() != Some(p as u64) {
+                bad("session-cookie-host-port", format!("session cookie {b} but the handshake said {h:?}:{p}"));
+            }
+            let id = b["id"].as_str().and_then(parse_uuid_text);
+            match id {
+                Some(u) if (u >> 76) & 0xf == 4 => {}
+                other => bad("session-cookie-id", format!("id {other:?} is not a version-4 UUID ({})", b["id"])),
+            }
+            // fresh: the same history run again yields another id
+            let (_, sess1b, _) = store_cookies(o1b);
+            if sess1b.len() == 1 {
+                let b2: Value = serde_json::from_slice(&sess1b[0]).unwrap_or(Value::Null);
+                if b2["id"] == b["id"] {
+                    bad("session-cookie-id-not-fresh", format!("two connections were given the same session id {}", b["id"]));
+                }
+            }
+        }
+    }
+    // ordering: cookies precede the Transfer (Transfer is last, checked above); nothing stored before Login Success
+    // ---------------- second connection
+    let flag = o2.packets.iter().find_map(|(_, p)| if let Pkt::EncryptionRequest { should_authenticate, .. } = p { Some(*should_authenticate) } else { None });
+    let auth_calls = o2.calls.iter().filter(|c| c.kind() == "authenticate").count();
+    let success = o2.packets.iter().find_map(|(_, p)| if let Pkt::LoginSuccess { uuid, name, .. } = p { Some((name.clone(), *uuid)) } else { None });
+    let presented = sec.is_some() && auth1.len() == 1 && s.second != "login-intent";
+    let accept = presented && matches!(s.second.as_str(), "same" | "other-port");
+    if accept {
+        if flag != Some(false) || auth_calls != 0 || success != Some((name.clone(), uuid)) {
+            let fam = if c1.cfg.client_addr.is_ipv4() { "ipv4" } else if s.addr == "v4-mapped" { "ipv4-mapped" } else { "ipv6" };
+            bad(&format!("stored-cookie-not-accepted:{}:{fam}", s.second), format!("second connection: flag {flag:?}, authentication calls {auth_calls}, Login Success {success:?}; expected to be admitted as ({name}, {}) without re-authentication", uuid_text(uuid)));
+        }
+        // routing sees the cookie's identity
+        for c in &o2.calls {
+            if let Call::Filter { name: n, uuid: u, .. } | Call::Select { name: n, uuid: u, .. } = c {
+                if *n != name || *u != uuid {
+                    bad("second-connection-routing-identity", format!("{} asked about ({n}, {u:032x})", c.kind()));
+                }
+            }
+        }
+        // if a refreshed cookie is issued it must verify and carry the cookie's identity
+        let (auth2, _, _) = store_cookies(o2);
+        for a in &auth2 {
+            check_auth_cookie(&mut |k, t| bad(&format!("refreshed-{k}"), t), a, sec.as_ref().unwrap(), second_case(s, None, None).cfg.client_addr, &name, uuid, &props(s.props), &target_id(s), bracket2);
+        }
+    } else {
+        if flag != Some(true) || auth_calls != 1 || success != Some(("Second_Verdict".to_string(), 0x2222_0000_0000_4000_8000_0000_0000_2222)) {
+            bad(&format!("stored-cookie-wrongly-accepted:{}", s.second), format!("second connection: flag {flag:?}, authentication calls {auth_calls}, Login Success {success:?}; expected re-authentication"));
+        }
+        // the second connection is itself freshly authenticated and routed
+        let (auth2, _, _) = store_cookies(o2);
+        match &sec {
+            Some(sec) => {
+                if auth2.len() != 1 {
+                    bad(&format!("auth-cookie-not-reissued:{}", s.second), format!("second connection was re-authenticated and routed but {} authentication cookies were stored; packets {:?}", auth2.len(), o2.kinds()));
+                } else {
+                    check_auth_cookie(&mut |k, t| bad(&format!("second-{k}"), t), &auth2[0], sec, second_case(s, None, None).cfg.client_addr, "Second_Verdict", 0x2222_0000_0000_4000_8000_0000_0000_2222, &[], &target_id(s), bracket2);
+                }
+            }
+            None => {
+                if !auth2.is_empty() {
+                    bad("auth-cookie-issued-without-secret", "second connection".into());
+                }
+            }
+        }
+    }
+    if !matches!(o2.packets.last(), Some((_, Pkt::Transfer { .. }))) {
+        bad("second-connection-not-transferred", format!("{:?} {:?}", o2.kinds(), o2.result));
+    }
+    v
+}
+
+fn specs(thorough: bool) -> Vec<Spec> {
+    let idents = ["ascii", "unicode", "nil-uuid", "long-name"];
+    let targets = ["t", "empty", "long", "unicode"];
+    let hosts = ["name", "empty", "port0"];
+    let addrs = ["v4", "v6", "v4-mapped"];
+    let secrets = ["none", "empty", "1", "64", "65", "200"];
+    let seconds = ["same", "other-port", "other-ip", "login-intent"];
+    let mut v = vec![];
+    let mut k = 0usize;
+    for a in addrs {
+        for sc in secrets {
+            for sess in [false, true] {
+                for snd in seconds {
+                    if thorough {
+                        for i in idents {
+                            for pr in 0..3 {
+                                for t in targets {
+                                    for h in hosts {
+                                        v.push(Spec { ident: i.into(), props: pr, target: t.into(), addr: a.into(), secret: sc.into(), session: sess, host: h.into(), second: snd.into() });
+                                    }
+                                }
+                            }
+                        }
+                    } else {
+                        // the large domains are rotated against the complete small product
+                        for r in 0..3 {
+                            let j = k + r * 5;
+                            v.push(Spec { ident: idents[j % 4].into(), props: j % 3, target: targets[(j / 2) % 4].into(), addr: a.into(), secret: sc.into(), session: sess, host: hosts[(j / 3) % 3].into(), second: snd.into() });
+                        }
+                        k += 1;
+                    }
+                }
+            }
+        }
+    }
+    // one history per address family whose second connection comes after the cookie expired (costs real time)
+    for a in addrs {
+        v.push(Spec { ident: "ascii".into(), props: 1, target: "t".into(), addr: a.into(), secret: "64".into(), session: false, host: "name".into(), second: "after-expiry".into() });
+    }
+    v
+}
+
+fn run_history(s: &Spec) -> (Case, Obs, Obs, Obs, (u64, u64), (u64, u64)) {
+    let c1 = first_case(s);
+    let t0 = wall_secs();
+    let o1 = crate::sim::run(&c1);
+    let o1b = crate::sim::run(&c1);
+    let t1 = wall_secs();
+    let (auth1, sess1, _) = store_cookies(&o1);
+    if s.second == "after-expiry" {
+        // expiry 0: the cookie is too old as soon as the wall clock has moved on by a second
+        std::thread::sleep(std::time::Duration::from_millis(2100));
+    }
+    let stored_session = if s.session { Some(SESSION_JSON.to_vec()) } else { sess1.first().cloned() };
+    let c2 = second_case(s, auth1.first().cloned(), stored_session);
+    let t2 = wall_secs();
+    let o2 = crate::sim::run(&c2);
+    let t3 = wall_secs();
+    (c1, o1, o2, o1b, (t0, t1), (t2, t3))
+}
+
+pub fn run(cli: Cli) -> ! {
+    let rep = Report::new("C10", cli.tier, "model_checking");
+    if let Some(case) = cli.replay.clone() {
+        let s: Spec = serde_json::from_value(case["spec"].clone()).unwrap_or_else(|e| common::machinery(&format!("bad replay: {e}")));
+        let (c1, o1, o2, o1b, b1, b2) = run_history(&s);
+        println!("spec: {}", serde_json::to_string(&s).unwrap());
+        println!("first connection: {}", serde_json::to_string_pretty(&o1.to_json()).unwrap());
+        println!("second connection: {}", serde_json::to_string_pretty(&o2.to_json()).unwrap());
+        for (k, t) in judge(&s, &c1, &o1, &o2, &o1b, b1, b2) {
+            rep.violation(Violation { key: k, text: t, replay: case.clone(), weight: 0 });
+        }
+        rep.set("states", json!(2));
+        rep.set("transitions", json!(2));
+        rep.set("traces_validated_against_impl", json!(1));
+        rep.finish();
+    }
+    let all = specs(cli.tier.thorough());
+    let distinct: Mutex<HashSet<String>> = Mutex::new(HashSet::new());
+    let (accepted, reauth, issued) = (AtomicU64::new(0), AtomicU64::new(0), AtomicU64::new(0));
+    par_for(all.len(), |i| {
+        // the slow (real-time) histories are at the end of the list; start them first
+        let s = &all[all.len() - 1 - i];
+        let (c1, o1, o2, o1b, b1, b2) = run_history(s);
+        if store_cookies(&o1).0.len() == 1 {
+            issued.fetch_add(1, Ordering::Relaxed);
+        }
+        match o2.packets.iter().find_map(|(_, p)| if let Pkt::EncryptionRequest { should_authenticate, .. } = p { Some(*should_authenticate) } else { None }) {
+            Some(false) => accepted.fetch_add(1, Ordering::Relaxed),
+            _ => reauth.fetch_add(1, Ordering::Relaxed),
+        };
+        distinct.lock().unwrap().insert(format!("{:?}|{:?}|{}", o1.kinds(), o2.kinds(), o2.calls.len()));
+        for (k, t) in judge(s, &c1, &o1, &o2, &o1b, b1, b2) {
+            rep.violation(Violation { key: k, text: format!("{t}; spec {}", serde_json::to_string(s).unwrap()), replay: json!({"spec": s}), weight: i as u64 });
+        }
+    });
+    let d = distinct.lock().unwrap().len() as u64;
+    rep.require("first connections with an issued cookie", issued.load(Ordering::Relaxed), 50);
+    rep.require("second connections admitted by cookie", accepted.load(Ordering::Relaxed), 20);
+    rep.require("second connections re-authenticated", reauth.load(Ordering::Relaxed), 20);
+    rep.set("states", json!(all.len() * 3));
+    rep.set("transitions", json!(all.len() * 3));
+    rep.set("traces_validated_against_impl", json!(all.len()));
+    rep.set("evaluations", json!(all.len()));
+    rep.set("distinct_nontrivial", json!(d));
+    rep.set("histories", json!(all.len()));
+    rep.set("second_admitted_by_cookie", json!(accepted.load(Ordering::Relaxed)));
+    rep.set("second_reauthenticated", json!(reauth.load(Ordering::Relaxed)));
+    rep.set("exhaustive", json!(true));
+    rep.set("rule", json!("two-connection histories (the first one run twice for the freshness of the session id): client address family(3) x secret(6) x prior session cookie(2) x second connection(same, other port, other IP, Login intent) complete; identity(4) x properties(3) x target identifier(4) x handshake host/port(3) complete in thorough, rotated in quick; plus three histories whose second connection comes after the expiry (real time). distinct_nontrivial = distinct (first trace, second trace, calls)."));
+    rep.sample(json!({"spec": all[0]}));
+    rep.sample(json!({"spec": all[all.len() - 1], "note": "second connection after expiry (2.1 s of real time, expiry 0)"}));
+    rep.assume("on the cookie-authenticated path the presence of a refreshed cookie is not judged (if one is issued it must verify and carry the cookie's identity)");
+    rep.assume("timestamps are checked against the wall-clock bracket of the run");
+    rep.finish()
 }
